@@ -431,3 +431,69 @@ Definition fits_read (b : list N) : fres :=
       end end end end end end end end end
     end
   end.
+
+(** ---------- the multi-order-map reader (src/deser/fits/multiordermap.rs MultiOrderMapIterator::open + rows) ----------
+    twelve mandatory cards (the last four: TTYPE1 = 'UNIQ', TFORM1 = 'K', TTYPE2 = 'PROBDENSITY', TFORM2 = 'D'),
+    the same keyword loop, then PIXTYPE present, ORDERING = NUNIQ, COORDSYS present, MOCORDER <= 29,
+    NAXIS1 - 16 bytes skipped per row (at most 65535), NAXIS2 rows (uniq, density bits); a row that cannot be
+    read entirely is an I/O error; uniq < 4, a depth above MOCORDER or an index outside its depth is rejected. *)
+Fixpoint mom_rows (fuel : nat) (nskip : nat) (n : N) (dmax : N) (data : list N) (acc : list (N * N)) : sum ferr (list (N * N)) :=
+  match fuel with
+  | O => Datatypes.inl FFuel
+  | S f =>
+    if n =? 0 then Datatypes.inr acc
+    else if (List.length data <? 16 + nskip)%nat then Datatypes.inl FIo
+    else
+      let u := be_value (firstn 8 data) in
+      let dens := be_value (firstn 8 (skipn 8 data)) in
+      let rest := skipn (16 + nskip) data in
+      if u <? 4 then Datatypes.inl FCustom
+      else let c := from_uniq_hpx u in
+           if (dmax <? fst c) || (n_cells Hpx (fst c) <=? snd c) then Datatypes.inl FCustom
+           else mom_rows f nskip (n - 1) dmax rest (acc ++ [(u, dens)])
+  end.
+
+Inductive momres := MomOk (depth : N) (rows : list (N * N)) | MomErr (e : ferr).
+
+Definition mom_read (b : list N) : momres :=
+  match consume_primary b with
+  | Datatypes.inl e => MomErr e
+  | Datatypes.inr b1 =>
+    match read_block b1 with
+    | None => MomErr FIo
+    | Some (cs, rest) =>
+      match check_kv (nth 0 cs []) (s2l "XTENSION") (s2l "'BINTABLE'") with Some e => MomErr e | None =>
+      match check_kv (nth 1 cs []) (s2l "BITPIX  ") (s2l "8") with Some e => MomErr e | None =>
+      match check_kv (nth 2 cs []) (s2l "NAXIS  ") (s2l "2") with Some e => MomErr e | None =>
+      match check_kw_uint 64 (nth 3 cs []) (s2l "NAXIS1  ") with Datatypes.inl e => MomErr e | Datatypes.inr nbytes =>
+      match check_kw_uint 64 (nth 4 cs []) (s2l "NAXIS2 ") with Datatypes.inl e => MomErr e | Datatypes.inr nrows =>
+      match check_kv (nth 5 cs []) (s2l "PCOUNT  ") (s2l "0") with Some e => MomErr e | None =>
+      match check_kv (nth 6 cs []) (s2l "GCOUNT  ") (s2l "1") with Some e => MomErr e | None =>
+      match check_kw_uint 64 (nth 7 cs []) (s2l "TFIELDS ") with Datatypes.inl e => MomErr e | Datatypes.inr _ =>
+      match check_kv (nth 8 cs []) (s2l "TTYPE1 ") (s2l "'UNIQ    '") with Some e => MomErr e | None =>
+      match check_kv (nth 9 cs []) (s2l "TFORM1 ") (s2l "'K       '") with Some e => MomErr e | None =>
+      match check_kv (nth 10 cs []) (s2l "TTYPE2 ") (s2l "'PROBDENSITY'") with Some e => MomErr e | None =>
+      match check_kv (nth 11 cs []) (s2l "TFORM2 ") (s2l "'D       '") with Some e => MomErr e | None =>
+      match kw_blocks (S (List.length rest)) (skipn 12 cs) rest [] with
+      | Datatypes.inl e => MomErr e
+      | Datatypes.inr (m, data) =>
+        match kw_get m 11 with None => MomErr FMissingKeyword | Some _ =>                 (* check_pixtype *)
+        match kw_get m 2 with
+        | None => MomErr FMissingKeyword
+        | Some (KEnum 0) =>
+          match kw_get m 3 with None => MomErr FMissingKeyword | Some _ =>                 (* check_coordsys *)
+          match depth_at m 10 with
+          | None => MomErr FMissingKeyword
+          | Some d =>
+            if 29 <? d then MomErr FUnexpectedDepth
+            else if (nbytes <? 16) || (65535 <? nbytes - 16) then MomErr FCustom
+            else match mom_rows (S (List.length data)) (N.to_nat (nbytes - 16)) nrows d data [] with
+                 | Datatypes.inl e => MomErr e
+                 | Datatypes.inr rows => MomOk d rows
+                 end
+          end end
+        | Some _ => MomErr FUnexpectedValue                                                  (* check_ordering *)
+        end end
+      end end end end end end end end end end end end end
+    end
+  end.
